@@ -147,4 +147,13 @@ theorem growthOk_of_le {m : Nat} (h1 : 1 ≤ m) (h2 : m ≤ 871) : growthOk m = 
     simp only [Gen.RELAY_CBUF_MAX, Gen.CBUF_CHUNK]; omega
   · simp only [Gen.RELAY_CBUF_MAX, Gen.CBUF_CHUNK]; omega
 
+/-- non-vacuity: the two build flavours that exist -/
+example : growthOk 1 = true ∧ growthOk 17 = true := ⟨growthOk_of_le (by decide) (by decide), growthOk_of_le (by decide) (by decide)⟩
+
+/-- sharpness of the modular condition: with 929 bookkeeping cells the stride passes 131071 = 132000 - 929, one byte
+    below the maximum, and the capped step gains 1 byte for a read of 1000 (evaluated) -/
+theorem growthOk_fails_at_929 : growthOk 929 = false ∧
+    firstBadStep Gen.RELAY_CBUF_MAX Gen.CBUF_CHUNK 929 4096 Gen.RELAY_CBUF_MIN = some (131071, 131072) := by
+  decide +kernel
+
 end PdshVerif.Relay
